@@ -273,16 +273,19 @@ type netSim struct {
 	onChainResubmitted map[util.Uint256]bool
 	conflictVictims    map[util.Uint256][]util.Uint256 // tx named by Conflicts attributes -> the naming transactions
 	namers             map[util.Uint256]bool
-	standby            string        // the standby validators (sorted), as printed
-	standbyKeys        []string      // standby validator key of node i
-	uncovered          bool          // the validators rotated to a set that the running nodes do not hold the keys of
-	lastBlockAt        time.Duration // when the latest height was first seen on any node
-	maxGap             time.Duration // longest time between two consecutive heights
-	rotatedAt          time.Duration // when the next block's validators first differed from the standby ones
-	healed             bool          // the fault-free phase after a faulty run has begun
-	healAt             time.Duration // when it began
-	healHeights        []uint32      // validators' heights at that moment
-	healedIn           time.Duration // how long it took every validator to gain two blocks (0: not yet)
+	directPayloads     map[[4]uint32]util.Uint256 // hash of every consensus payload delivered directly, by (height, validator, type, view)
+	directData         map[util.Uint256]string
+	directCVs          map[string]util.Uint256 // ChangeViews delivered directly, by height/validator/view/timestamp
+	standby            string                  // the standby validators (sorted), as printed
+	standbyKeys        []string                // standby validator key of node i
+	uncovered          bool                    // the validators rotated to a set that the running nodes do not hold the keys of
+	lastBlockAt        time.Duration           // when the latest height was first seen on any node
+	maxGap             time.Duration           // longest time between two consecutive heights
+	rotatedAt          time.Duration           // when the next block's validators first differed from the standby ones
+	healed             bool                    // the fault-free phase after a faulty run has begun
+	healAt             time.Duration           // when it began
+	healHeights        []uint32                // validators' heights at that moment
+	healedIn           time.Duration           // how long it took every validator to gain two blocks (0: not yet)
 }
 
 func (s *netSim) now() time.Duration { return time.Since(s.start) }
@@ -499,7 +502,7 @@ func (s *netSim) deliver(to int, kind string, raw []byte) {
 		e := msg.Payload.(*payload.Extensible)
 		if s.r.prop == "C17" {
 			s.checkReencode(msg, raw)
-			s.checkConsensusPayload(e, strings.HasSuffix(kind, "*"))
+			s.checkConsensusPayload(e, strings.HasSuffix(kind, "*"), to)
 		}
 		ok, err := v.ext.Add(e)
 		if err != nil || !ok {
